@@ -147,11 +147,12 @@ Section RemInv.
   Variable Q : store -> Prop.
   Hypothesis Qrem : forall x s, Q s -> Q (remove x s).
   Variables (e : env) (clk : nat -> Z).
+  Hypothesis NF : no_faults e.
 
   Lemma do_delete_Q k s : Q (sto s) -> Q (sto (snd (do_delete e k s))).
   Proof.
-    intros H. destruct (do_delete e k s) as [b s1] eqn:D. cbn [snd].
-    destruct (do_delete_spec _ _ _ _ _ D) as [-> | ->]; [exact H | apply Qrem; exact H].
+    intros H. unfold do_delete. rewrite (nf_faulty e s NF), (nf_pfaulty e s NF), (nf_efaulty e s NF).
+    cbn [snd sto logged]. apply Qrem; exact H.
   Qed.
   Lemma staples_loop_Q ks : forall s, Q (sto s) -> Q (sto (staples_loop e clk ks s)).
   Proof.
@@ -316,7 +317,7 @@ Section NF.
   Hypothesis NF : no_faults e.
 
   Lemma nf_delete k s : do_delete e k s = (true, logged KDelete k true (remove k (sto s)) s).
-  Proof. unfold do_delete. rewrite (nf_faulty e s NF), (nf_efaulty e s NF). reflexivity. Qed.
+  Proof. unfold do_delete. rewrite (nf_faulty e s NF), (nf_pfaulty e s NF), (nf_efaulty e s NF). reflexivity. Qed.
   Lemma nf_load_file k s v c : lookup (sto s) k = Some (File v c) ->
     do_load e k s = (LOk v c, logged KLoad k true (sto s) s).
   Proof. intros H. unfold do_load. rewrite (nf_faulty e s NF), H. reflexivity. Qed.
@@ -403,7 +404,9 @@ Section NF.
       subst a. exact (Nc (trio_children sk a0 x C0 Ext Hx)). }
     assert (Del : forall x st, In x (trio a0) -> lookup (sto (snd (do_delete e x st))) a = lookup (sto st) a).
     { intros x st Hx. destruct (do_delete e x st) as [b st'] eqn:D. cbn [snd].
-      destruct (do_delete_spec _ _ _ _ _ D) as [-> | ->]; [reflexivity|]. rewrite lookup_remove, (NC x Hx). reflexivity. }
+      destruct (do_delete_spec _ _ _ _ _ D) as [-> | [-> | [keep ->]]]; [reflexivity| |].
+      - rewrite lookup_remove, (NC x Hx). reflexivity.
+      - rewrite lookup_removep, (NC x Hx). reflexivity. }
     pose proof (Del a0 s1 (or_introl eq_refl)) as D0. destruct (do_delete e a0 s1) as [b2 s2]. cbn [snd] in D0.
     rewrite Et, Er. rewrite IH by assumption. cbn [delete_related].
     pose proof (Del (trim_suffix spec_ext_crt a0 ++ spec_ext_key) s2 (or_intror (or_introl eq_refl))) as D1.
@@ -503,7 +506,7 @@ Section NF2.
     destruct (assets_effective e clk gr NF assets ND SA s1 HC) as [F G].
     pose proof (assets_frame e clk gr sk Hsk assets CH s1) as FR.
     pose proof (assets_loop_shrinks e clk gr assets s1) as SH.
-    pose proof (fun Q (HQ : reminv Q) => assets_loop_Q Q HQ e clk gr assets s1) as PQ.
+    pose proof (fun Q (HQ : reminv Q) => assets_loop_Q Q HQ e clk NF gr assets s1) as PQ.
     destruct (assets_loop e clk gr assets s1) as [ab s2]. cbn [fst snd] in *. subst ab.
     rewrite E1 in G, FR, SH, PQ.
     assert (InA : notfile (sto s) sk -> forall a, child sk a -> lookup (sto s) a <> None -> In a assets).
@@ -659,11 +662,14 @@ Proof.
   destruct res as [v c| |]; try (rewrite IH by assumption; rewrite E; reflexivity).
   destruct (stale_staple (rd clk s1) c); [|rewrite IH by assumption; rewrite E; reflexivity].
   destruct (do_delete e a s1) as [b s2] eqn:D. rewrite IH by assumption. rewrite <- E.
-  destruct (do_delete_spec _ _ _ _ _ D) as [-> | ->]; [reflexivity|].
-  rewrite lookup_remove. destruct (covers a k) eqn:C; [|reflexivity]. exfalso.
-  assert (P : has_prefix ocsp_pfx a = true).
-  { destruct Ca as [ca [-> _]]. apply has_prefix_spec. exists ca. unfold ocsp_pfx. rewrite <- app_assoc. reflexivity. }
-  rewrite (covers_prefix _ _ _ P C) in Hk. discriminate.
+  assert (NC : covers a k = false).
+  { destruct (covers a k) eqn:C; [|reflexivity]. exfalso.
+    assert (P : has_prefix ocsp_pfx a = true).
+    { destruct Ca as [ca [-> _]]. apply has_prefix_spec. exists ca. unfold ocsp_pfx. rewrite <- app_assoc. reflexivity. }
+    rewrite (covers_prefix _ _ _ P C) in Hk. discriminate. }
+  destruct (do_delete_spec _ _ _ _ _ D) as [-> | [-> | [keep ->]]]; [reflexivity| |].
+  - rewrite lookup_remove, NC. reflexivity.
+  - rewrite lookup_removep, NC. reflexivity.
 Qed.
 Lemma old_staples_frame e clk s k : has_prefix ocsp_pfx k = false ->
   lookup (sto (delete_old_staples e clk s)) k = lookup (sto s) k.
@@ -719,7 +725,7 @@ Section Top.
     rewrite Hc.
     set (s2 := if do_ocsp o then delete_old_staples e clk sA else sA).
     assert (Q2 : forall Q, reminv Q -> Q s0 -> Q (sto s2)).
-    { intros Q HQ H. subst s2. destruct (do_ocsp o); [apply delete_old_staples_Q; [exact HQ | exact H] | exact H]. }
+    { intros Q HQ H. subst s2. destruct (do_ocsp o); [apply delete_old_staples_Q; [exact HQ | exact NF | exact H] | exact H]. }
     assert (K2 : forall k, has_prefix ocsp_pfx k = false -> lookup (sto s2) k = lookup s0 k).
     { intros k Hk. subst s2. destruct (do_ocsp o); [rewrite old_staples_frame by exact Hk; reflexivity | reflexivity]. }
     pose proof (certs_phase s2 (Q2 _ crt_wf_remove WF) (Q2 _ (reminv_notfile _) NFc) (Q2 _ (reminv_notfile _) NFi)
